@@ -9,6 +9,10 @@ CHECKS = {
   text="Stateful property-based testing: generated histories of topology edits (valid and invalid arguments) are applied to the real Bondmachine and to a reference model of named bonds; well-formedness and bond-set equality are checked after every edit. Held on everything generated; not a proof.",
   note="Trusted: the reference model in harness/c10 (written from the statement and the documented renumbering), rapid's generators. Negative ids are outside the domain.",
   technique="property-based testing (rapid), stateful/model-based generation of edit histories against a reference model"),
+ "C03": dict(
+  text="Property-based testing of the instruction encoder over every statically registered opcode and one instance of every dynamic family: generated architectures (R=1, single-bit port fields, WordSize overrides, all modes) and operand tuples in and out of range; oracle: error, or a word of exactly Max_word bits over {0,1} whose disassembly equals the line by value, re-assembly of the disassembly gives the word back, and out-of-range operands are rejected. Plus generated/mutated raw lines and a native fuzz target (thorough). Found D1 and the tsp defects (fixed in /repo); one open finding (64-bit immediates disassemble negative).",
+  note="Trusted: the per-opcode operand-kind table in harness/c03/operand_kinds.go (read from each opcode's Assembler), numeric comparison of operands. Shared-object opcodes are covered with generated Shared_constraints.",
+  technique="property-based testing (rapid): round-trip and range-rejection oracles over generated architectures and lines; native go fuzz"),
  "C04": dict(
   text="Property-based testing of the handshake in the simulator world: generated producer/consumer programs (strictly increasing counter, nop padding, fan-out 1..3, fixed per-opcode delays, environment stalls, back-to-back writes) run on bondmachine.VM; after every tick each consumer's captured sequence must be a prefix of the offered sequence and the producer must not move past a write a consumer has not captured. Two genuine defects (D4, D5) are recorded as known findings, recognised by precondition monitors and excluded so search continues behind them. The generated-hardware world is added once /verif's Verilog interpreter is in place.",
   note="Trusted: observation at the processors (PC leaving i2rw/r2owa, register values), the precondition monitors that classify D4/D5. Hardware world not yet covered by this check.",
@@ -21,6 +25,10 @@ CHECKS = {
   text="Property-based testing over generated multi-processor machines, stimuli, seeded schedule perturbation (verif-tagged yield hook, GOMAXPROCS 1..16) and concurrency plans (copies of the same machine sharing one Bondmachine, different machines, concurrent SinglePipelineSimulate): the per-tick digest of the complete VM state must equal the solo unperturbed run; the same binary runs under the Go race detector (a report is a violation). Exploration of schedules, not exhaustive. Found D7 and D11 (both fixed in /repo).",
   note="Trusted: digest covers processors' PC/registers/memory/ports/flags/deferred and extra state and all bond registers; the race detector; schedules the hook and GOMAXPROCS cannot provoke are not explored.",
   technique="property-based testing (rapid) with injected-yield schedule fuzzing, differential against the solo run, plus the race detector as sanitizer"),
+ "C13": dict(
+  text="The LIFO/FIFO module rendered by BmStack.WriteHDL for generated configurations is executed by /verif's Verilog interpreter under handshake-abiding agents whose per-cycle choices are generated (rapid) and, for the smallest configurations, enumerated exhaustively with memoisation of (circuit registers, agent states, abstract sequence); every cycle is checked against an abstract sequence: discipline, no accept when full / return when empty, flags, ack discipline, bounded wait. The exhaustive slices that closed (frontier emptied) are listed in the evidence; larger ones are bounded by a state budget and sampled.",
+  note="Trusted: /verif's Verilog interpreter (2-state, power-up zero; its expression evaluator is property-tested against math/big, and it is validated on hand-derived traces), the agent protocol model. Exhaustiveness holds only for the named slices.",
+  technique="model-based property testing (rapid) + bounded-exhaustive input generation on the real emitted HDL against a reference sequence"),
  "C14": dict(
   text="Property-based testing of the quantum front-end through its public path: generated circuits (n=1..5, every gate alias, arbitrary distinct qubit arguments, packed layers) are compiled by QasmToBmMatrices and compared with an independently written reference unitary (textbook gate tables embedded by bit manipulation); every emitted matrix must be unitary and RunSoftwareSimulation must map each basis state to the reference column. Plus a bounded-exhaustive sweep of every single-gate placement for n<=5. Found the displaced-argument defect (fixed in /repo).",
   note="Trusted: the reference tables in harness/c14/ref.go and the qubit-order convention (first declared = MSB, cx a,b controls on a) taken from the README example; float32 tolerance 1e-4 per emitted matrix.",
@@ -34,13 +42,11 @@ CHECKS = {
 PENDING = {
  "C01": "check under construction in this session (planned: differential PBT of emitted Verilog under /verif's interpreter vs the Go ISA simulator, DESIGN.md §3 C01)",
  "C02": "check under construction (planned: stream-equality differential + netlist check, DESIGN.md §3 C02)",
- "C03": "check under construction (planned: assembler/disassembler round-trip PBT)",
  "C05": "check under construction (planned: reference interpreter of BASM source vs simulation)",
  "C06": "check under construction (planned: dataflow evaluator vs every partition)",
  "C07": "check under construction (planned: repeated-run byte equality)",
  "C11": "check under construction (planned: save/load round-trip with reflection walk)",
  "C12": "check under construction (planned: Go-subset evaluator vs compiled machine, termination under forced schedules)",
- "C13": "check under construction (planned: LIFO/FIFO HDL vs abstract sequence under generated agents)",
  "C15": "check under construction (planned: rule print/parse round-trip + trace predictor)",
  "C16": "check under construction (planned: independent well-formedness validator over front-end outputs)",
  "C18": "check under construction (planned: lint of generated file sets with /verif's Verilog front end)",
